@@ -55,6 +55,24 @@ XalanDOMStringCache::~XalanDOMStringCache()
 XalanDOMString&
 XalanDOMStringCache::get()
 {
+    // release() and reset() move a string from the busy list to the
+    // available list.  They are called from destructors, so they must
+    // not allocate: make room now for every string that is, or is about
+    // to be, busy.
+    const StringListType::size_type     theRequiredCapacity =
+        m_availableList.size() + m_busyList.size() + 1;
+
+    if (m_availableList.capacity() < theRequiredCapacity)
+    {
+        const StringListType::size_type     theDoubledCapacity =
+            m_availableList.capacity() * 2;
+
+        m_availableList.reserve(
+            theDoubledCapacity > theRequiredCapacity ?
+                theDoubledCapacity :
+                theRequiredCapacity);
+    }
+
     if (m_availableList.empty() == true)
     {
         XalanDOMString&     theString = m_allocator.create();
